@@ -96,7 +96,11 @@ pub fn gen_prog(rng: &mut Rng) -> Vec<u8> {
   let nblocks = 3 + rng.below(14);
   let mut hl_incs = 0;
   for _ in 0..nblocks {
-    match rng.below(13) {
+    match rng.below(14) {
+      13 => {                                                                                           // OAM DMA still running when the CPU suspends / goes on
+        p.extend_from_slice(&[0x3e, *rng.pick(&[0xc0u8, 0xd0, 0xc1, 0xff]), 0xe0, 0x46]);
+        if waker && rng.chance(1, 2) { p.push(0x76); } else { for _ in 0..rng.below(6) { p.push(0x00); } }
+      },
       0 => { p.extend_from_slice(&[0x06, 1 + rng.below(40) as u8, 0x05, 0x20, 0xfd]); }                 // LD B,n ; L: DEC B ; JR NZ,L
       1 => { let s = *rng.pick(&subs); p.extend_from_slice(&[0xcd, (s & 0xff) as u8, (s >> 8) as u8]); } // CALL
       2 => { let s = *rng.pick(&subs); p.extend_from_slice(&[*rng.pick(&[0xc4u8, 0xcc, 0xd4, 0xdc]), (s & 0xff) as u8, (s >> 8) as u8]); }
@@ -135,10 +139,13 @@ fn run_prog(name: &str, prog: &[u8], init: [u16; 4], steps: usize, w: &mut dyn W
   for _ in 0..steps {
     core.update();
     let div = core.memory.io.timer.verif_state().0 & 0xffff;
-    t.push(format!("{},{},{},{},{},{},{},{},{},{},{},{},{},{},{}", div, { core.registers.cycles }, core.last_block_cycle_length,
+    let dma = core.memory.oam_dma.map(|d| d.verif_state().1 as u32).unwrap_or(160);
+    let mut oamd = crate::roms::FNV0;
+    for b in core.memory.oam_ram.iter() { oamd = crate::roms::fnv(oamd, *b); }
+    t.push(format!("{},{},{},{},{},{},{},{},{},{},{},{},{},{},{},{},{}", div, { core.registers.cycles }, core.last_block_cycle_length,
       core.memory.io.video.get_ly(), { core.registers.ip }, { core.registers.sp }, { core.registers.af }, { core.registers.bc },
       { core.registers.de }, { core.registers.hl }, ime_code(&core.interrupts_enabled), run_code(&core.run_state),
-      core.memory.io.interrupt_flag.as_u8(), core.memory.io.video.get_lcd_status(), core.memory.io.video.get_frames_completed()));
+      core.memory.io.interrupt_flag.as_u8(), core.memory.io.video.get_lcd_status(), core.memory.io.video.get_frames_completed(), dma, oamd));
   }
   writeln!(w, "{} prog={} init={},{},{},{} steps={} | t={}", name, hex(prog), init[0], init[1], init[2], init[3], steps, t.join(";")).unwrap();
 }
